@@ -167,6 +167,14 @@ struct FamQuant : NoTrimReset {
   }
   static std::string image(const S& s) { return str_of(s.serialize(0, SD())); }
   static S deser(const std::string& img, int inst) { return S::deserialize(img.data(), img.size(), SD(), std::less<T>(), A(inst)); }
+  // every second copy goes through the type-converting constructors (to a sketch with another comparator type of the same order, and back)
+  struct Less2 { bool operator()(const T& a, const T& b) const { return a < b; } };
+  static S ccopy(const S& s) {
+    static unsigned turn = 0;
+    if ((turn++ & 1) == 0) return S(s);
+    SK<T, Less2, A> mid(s, Less2(), s.get_allocator());
+    return S(mid, std::less<T>(), s.get_allocator());
+  }
 };
 struct MkK { // (k, comparator, allocator)
   template<class S, class A> static S make(int inst, const W& w) { return S((uint16_t)num(w, 3, 8), std::less<typename S::value_type>(), A(inst)); }
